@@ -75,7 +75,7 @@ SOLVER_C13 = ['--sat-solver', 'cadical']
 A_REPS6 = ('histogram restricted to 6 representative positions, one or two per class of the two letter models (A and U: in both models; D, y: protein-only; B: letter in neither model; -: non-letter); '
            'each count symbolic in 0..4095; the other 122 entries are 0')
 for pm in (1, 2):
-    Q(id='C13.detect_alphabet.premise%d' % pm, props=['C13', 'C04'] + (['C14'] if pm == 1 else []), cls='B', harness='c13_detect_alphabet.c', entry='h_c13_detect',
+    Q(id='C13.detect_alphabet.premise%d' % pm, props=['C13'] + (['C14', 'C04'] if pm == 1 else []), cls='B', harness='c13_detect_alphabet.c', entry='h_c13_detect',
       mode='wrap', unwind=130, timeout=1500, defs=['-DKV_PREMISE=%d' % pm, '-DKV_MAXCOUNT=4095', '-DKV_C13_REPS6'], funcs=['detect_alphabet'],
       solver=SOLVER_C13,
       trusted=[TRUST_MSG], assumptions=[A_LOG, A_REPS6, A_FLOAT, A_WRAP], native_srcs=['lib/src/tldevel.c', 'lib/src/msa_alloc.c', 'lib/src/alphabet.c'])
@@ -131,26 +131,39 @@ def _lens_options(n, p):
 
 def _weave_shapes(tier):
     out = []
+    def add(na, nb, pa, pb):
+        for la in _lens_options(na, pa):
+            for lb in _lens_options(nb, pb):
+                for L in range(max(pa, pb), pa + pb):
+                    lens = '{' + ','.join(str(x) for x in la + lb) + '}'
+                    out.append(dict(name='na%d_nb%d_pla%d_plb%d_lens%s_L%d' % (na, nb, pa, pb, ''.join(str(x) for x in la + lb), L),
+                                    defs=dict(KV_NA=na, KV_NB=nb, KV_PLA=pa, KV_PLB=pb, KV_L=L, KV_LENS=lens)))
     if tier == 'quick':
-        # sum 6 is the smallest size in which two separate insertions fall into one existing gap run (GA M GA M against a member "-A")
-        pls, groups, maxsum = [1, 2, 3, 4], [(1, 1), (1, 2), (2, 1), (2, 2)], 6
-    else:
-        pls, groups, maxsum = [1, 2, 3, 4], [(1, 1), (1, 2), (2, 1), (2, 2), (3, 1), (1, 3)], 7
+        # every branch of the merge code is crossed by these (about 130 queries, a few seconds each):
+        for pa in (1, 2, 3):
+            for pb in (1, 2, 3):
+                if pa + pb <= 5:
+                    add(1, 1, pa, pb)
+        for pa, pb in ((1, 1), (2, 1), (2, 2), (1, 2), (3, 1), (2, 3)):
+            add(2, 1, pa, pb)
+            add(1, 2, pb, pa)
+        # the smallest size in which two separate insertions fall into ONE existing gap run (GA M GA M against a member "-A")
+        add(2, 1, 2, 4)
+        add(1, 2, 4, 2)
+        for pa, pb in ((1, 1), (2, 1), (1, 2), (2, 2)):
+            add(2, 2, pa, pb)
+        return out
+    pls, groups, maxsum = [1, 2, 3, 4], [(1, 1), (1, 2), (2, 1), (2, 2), (3, 1), (1, 3)], 7
     for na, nb in groups:
         for pa in pls:
             for pb in pls:
                 if pa + pb > maxsum:
                     continue
-                if na + nb >= 4 and pa + pb > (5 if tier == 'quick' else 6):
+                if na + nb >= 4 and pa + pb > 6:
                     continue
-                for la in _lens_options(na, pa):
-                    for lb in _lens_options(nb, pb):
-                        for L in range(max(pa, pb), pa + pb):
-                            lens = '{' + ','.join(str(x) for x in la + lb) + '}'
-                            out.append(dict(name='na%d_nb%d_pla%d_plb%d_lens%s_L%d' % (na, nb, pa, pb, ''.join(str(x) for x in la + lb), L),
-                                            defs=dict(KV_NA=na, KV_NB=nb, KV_PLA=pa, KV_PLB=pb, KV_L=L, KV_LENS=lens)))
+                add(na, nb, pa, pb)
     return out
-Q(id='C01.weave', props=['C01', 'C10', 'C05'], cls='B', harness='c01_weave.c', entry='h_c01_weave', shapes=_weave_shapes,
+Q(id='C01.weave', props=['C01', 'C10'], cls='B', harness='c01_weave.c', entry='h_c01_weave', shapes=_weave_shapes,
   mode='wrap', unwind=12, timeout=900, loops_files=['weave.loops', 'aln_run.loops'], shrink=True,
   funcs=['do_align', 'add_gap_info_to_path_n', 'mirror_path_n', 'make_seq', 'update_gaps', 'init_alnmem', 'alloc_aln_mem', 'resize_aln_mem'],
   srcs=['lib/src/weave_alignment.c', 'lib/src/aln_mem.c'],
@@ -481,8 +494,10 @@ def _writer_shapes(tier):
         for fmt in (0, 1, 2):
             for prot in ((0, 1) if fmt == 2 else (0,)):
                 uw = max(70, w + 10, 30)
-                out.append(dict(name='n%d_w%d_names%s_fmt%d_prot%d' % (n, w, ''.join(map(str, nl)), fmt, prot),
-                                defs=dict(KV_N=n, KV_W=w, KV_NAMELENS='{' + ','.join(map(str, nl)) + '}', KV_FMT=fmt, KV_PROT=prot), unwind=uw))
+                d = dict(KV_N=n, KV_W=w, KV_NAMELENS='{' + ','.join(map(str, nl)) + '}', KV_FMT=fmt, KV_PROT=prot)
+                if w >= 16:
+                    d['KV_FREE'] = 4
+                out.append(dict(name='n%d_w%d_names%s_fmt%d_prot%d' % (n, w, ''.join(map(str, nl)), fmt, prot), defs=d, unwind=uw))
     return out
 WRITER_SRCS = ['lib/src/msa_alloc.c', 'lib/src/msa_op.c', 'lib/src/msa_misc.c', 'lib/src/alphabet.c', 'lib/src/tlmisc.c']
 Q(id='C15.writers', props=['C15', 'C06', 'C01'], cls='B', harness='c15_writers.c', entry='h_c15_write', shapes=_writer_shapes,
@@ -494,7 +509,7 @@ Q(id='C15.writers', props=['C15', 'C06', 'C01'], cls='B', harness='c15_writers.c
   srcs=WRITER_SRCS, native_srcs=['lib/src/tldevel.c', 'lib/src/esl_stopwatch.c'] + WRITER_SRCS,
   trusted=[TRUST_MSG, 'stdio capture stubs (contracts/stubs_io.h): fprintf/snprintf for exactly the formats the writers use, fopen/fclose/time/localtime_r/strftime trivial',
            'qsort insertion-sort stub', 'realloc byte-copy stub', 'R3 capacity shrink (line table 1024 -> 24 lines: no growth of the line table occurs in these shapes, resize_line_buffer is not exercised; record growth 512 -> 2)'],
-  assumptions=[A_NOFAIL, A_WRAP, 'bounded: 2-3 rows, widths 1,3,60,61 (thorough 59,120,121), names of 1-3 (10) characters from [A-Za-z0-9_.|-], row bytes from {-,A,c,G,t,N}; output to stdout (outfile == NULL)'])
+  assumptions=[A_NOFAIL, A_WRAP, 'bounded: 2-3 rows, widths 1,3,60,61 (thorough 59,120,121), concrete names of 1-3 (10) characters over [A-Za-z0-9_.|-], row bytes symbolic from {-,A,c,N} (wide shapes: only the last 4 columns symbolic); output to stdout (outfile == NULL)'])
 PROPS['C15'] = dict(
     level='other',
     level_text=('the three writers are run on symbolic finalised alignments with stdio captured; the captured bytes are checked against the format rules of the property (60-column wrapping, header lines, blocks with every sequence once, in order) '
@@ -502,3 +517,32 @@ PROPS['C15'] = dict(
     level_note='bounded (2-3 rows, widths around the 60-column boundary); stdio replaced by capture stubs; file output path (fopen) not exercised; capacity-shrunk line table',
     technique=T_CB + ' (harness-enforced), bounded unwinding, stdio capture stubs; native replay',
     explanation=EXPL_COMMON)
+
+PROPS['C06'] = dict(
+    level='other',
+    level_text=('bounded contract checks that compose to the round trip: C15.writers shows each writer emits, byte for byte, the text the format rules prescribe for a symbolic alignment; '
+                'C05.read_fasta and C06.readers (Clustal) show the reader returns, for block-structured text of that shape, one record per row with the same name, residues and every gap count'),
+    level_note=('bounded and partial: the MSF reader query exhausts memory and is NOT decided (thorough tier, reported undecided); reader texts use shortened header lines and small blocks (the readers do not depend on the block constant); '
+                'the composition writer -> text -> reader and the cross-format pairs are meta-arguments over the common abstract rows'),
+    technique=T_CB + ' (harness-enforced), bounded unwinding, capacity-shrunk copies; native replay',
+    explanation=EXPL_COMMON)
+
+def _reader_shapes(tier):
+    out = []
+    # measured: Clustal shapes up to 3 columns finish in ~90 s; 4 columns and every MSF shape (longer header -> larger unwinding
+    # bound -> phantom iterations) exhaust 12 GB.  They stay in the thorough tier and are reported undecided when they do not finish.
+    if tier == 'quick':
+        shapes = [(2, 2, 2, 1), (2, 3, 2, 1), (2, 3, 3, 1)]
+    else:
+        shapes = [(2, 2, 2, 1), (2, 3, 2, 1), (2, 3, 3, 1), (2, 4, 2, 1), (2, 2, 2, 2), (2, 3, 2, 2)]
+    for n, w, blk, fmt in shapes:
+        out.append(dict(name='n%d_w%d_block%d_fmt%d' % (n, w, blk, fmt), defs=dict(KV_N=n, KV_W=w, KV_BLOCK=blk, KV_FMT=fmt),
+                        unwind=(18 if fmt == 1 else 12 + n + ((w + blk - 1) // blk) * (n + 2))))
+    return out
+Q(id='C06.readers', props=['C06', 'C04', 'C05'], cls='B', harness='c06_readers.c', entry='h_c06_readers', shapes=_reader_shapes,
+  mode='wrap', timeout=1200, loops_files=['msa_alloc.shrink.loops', 'msa_io.shrink.loops'], shrink=True, leak_check=True,
+  defs=['-DKV_CAP=4', '-DKV_SEQCAP=2'], object_bits=11, unwindset={'strnlen.0': 258},
+  funcs=['read_clu', 'read_msf', 'null_terminate_sequences', 'resize_msa_seq', 'alloc_msa', 'kalign_free_msa'],
+  srcs=['lib/src/msa_alloc.c', 'lib/src/msa_op.c', 'lib/src/msa_misc.c', 'lib/src/alphabet.c', 'lib/src/tlmisc.c'], native_srcs=READER_NATIVE,
+  trusted=[TRUST_MSG, 'strstr/strnlen loop stubs', 'realloc byte-copy stub', 'isalpha/ispunct/isspace: CBMC C-locale models', 'R3 capacity shrink (records 512 -> 4, residues 512 -> 2)'],
+  assumptions=[A_NOFAIL, A_WRAP, 'bounded: 2-3 rows, 2-6 columns in blocks of 2-3 (the readers do not depend on the block constant 60), row bytes from {-,A,c,N}; header lines shortened to the keywords the readers look for'])
